@@ -210,7 +210,7 @@ pub fn c09(tier: &str) -> i32 {
                 (true, false) => vec![(2, 2, 1)],
                 (true, true) => vec![(1, 1, 1), (2, 2, 0)],
                 (false, false) => vec![(3, 2, 1), (2, 1, 2)],
-                (false, true) => vec![(2, 2, 1), (1, 1, 2)],
+                (false, true) => vec![(2, 1, 1), (1, 2, 1), (1, 1, 2)],
             };
             for (d, m, b) in boxes {
                 // gate draws come from fuzzer bytes: besides "fires" (0.0) and "declines" (2.0) also NaN and a negative value
